@@ -44,6 +44,7 @@ func c06Faults() []c06Fault {
 		{"bi-sqrt-pct-str", BI("sqrt", `"9%"`), ""}, {"bi-len-pct-str-mod", BI("len", "7 % 4"), ""}, {"idx-pct-str", `arr["%d"]`, ""},
 		// statement faults
 		{"redeclare", "", Var("dup", "2")}, {"redeclare-in-list", "", K["var"] + " fresh1 = 1, dup = 2;"}, {"redeclare-list-twice", "", K["var"] + " m1 = 1, m2 = 2; " + K["var"] + " m3 = 3, m1 = 4;"}, {"undefined-assign", "", "নেই = 1;"},
+		{"redeclare-multiline-array", "", Var("dup", "[\n 1,\n 2\n]")}, {"redeclare-multiline-object", "", Var("dup", "{\n k: 1,\n j: [\n 2\n ]\n}")}, {"redeclare-in-list-multiline", "", K["var"] + " fresh2 = [\n 1\n], dup = {\n k: 2\n};"},
 		{"idxw-high", "", "arr[5] = 1;"}, {"idxw-str", "", `arr["x"] = 1;`}, {"idxw-neg", "", "arr[-1] = 1;"}, {"idxw-nonarray", "", "(5)[0] = 1;"},
 		{"propw-num", "", "(5).k = 1;"}, {"propw-nil", "", "nil.k = 1;"}, {"propw-nested-missing", "", "obj.zz.k = 1;"},
 	}
@@ -286,6 +287,15 @@ func c06Run(c *Ctx) {
 			c06Judge(c, &Case{Gen: "fault-free-controls-cli", Mode: "cli", Src: src, Stdin: stdin})
 		}
 	}
+	// programs that perform no operation at all are fault-free too
+	for _, src := range []string{"", "\n", "// only a comment\n", "/* block\n comment */\n", "   \n\t\n", "// a\n// b", "/**/"} {
+		if c.Mine() {
+			c06Judge(c, &Case{Gen: "fault-free-controls", Src: src, Stdin: stdin})
+		}
+		if c.Mine() {
+			c06Judge(c, &Case{Gen: "fault-free-controls-cli", Mode: "cli", Src: src, Stdin: stdin})
+		}
+	}
 	// a fault that depends on a run-time string (zero divisor, negative shift count, bad index given
 	// as text, e.g. read with ইনপুট): where the operation accepts the string at all, the program must
 	// behave exactly as with the number the string coerces to — in particular it must stop
@@ -337,7 +347,7 @@ func c06Run(c *Ctx) {
 func init() {
 	register(&CheckDef{
 		ID:   "C06",
-		Rule: "programs: 80 expression faults and 9 statement faults (incl. ones whose diagnostic quotes text containing a per-cent sign; undefined name, redeclaration, type mismatch for every operator family, zero divisor, negative shift, bad index read/write, missing property, property of non-object, non-callable, arity, every built-in with a bad argument) planted at 45 syntactic positions (top level, nested block, if condition/then/else, while condition/body, infinite while/for body, for initializer/condition/increment/body, function body, nested function, function called from a loop, call argument first/last, callee, array/object literal element, index, initializer, return operand, either side of ||, &&, binary, unary, three assignment forms, ...) x 3 layouts; after the fault each program has tagged prints, ইনপুট(prompt) calls with stdin available, and enclosing loops that end only through a থামো placed after the fault. In-process runs record the hook event order (stdout / diagnostic / built-in call / stdin read) and an X-never-after-Y monitor checks nothing follows the first runtime diagnostic; a step budget derived from the model decides termination; the binary is run with separate pipes (model comparison) and with one merged pipe (ordering). Plus stray signals, fault-free controls, seeded random faulty programs. Non-trivial = distinct program whose planted fault was reached and decided.",
+		Rule: "programs: 80 expression faults and 12 statement faults (incl. ones whose diagnostic quotes text containing a per-cent sign; undefined name, redeclaration, type mismatch for every operator family, zero divisor, negative shift, bad index read/write, missing property, property of non-object, non-callable, arity, every built-in with a bad argument) planted at 45 syntactic positions (top level, nested block, if condition/then/else, while condition/body, infinite while/for body, for initializer/condition/increment/body, function body, nested function, function called from a loop, call argument first/last, callee, array/object literal element, index, initializer, return operand, either side of ||, &&, binary, unary, three assignment forms, ...) x 3 layouts; after the fault each program has tagged prints, ইনপুট(prompt) calls with stdin available, and enclosing loops that end only through a থামো placed after the fault. In-process runs record the hook event order (stdout / diagnostic / built-in call / stdin read) and an X-never-after-Y monitor checks nothing follows the first runtime diagnostic; a step budget derived from the model decides termination; the binary is run with separate pipes (model comparison) and with one merged pipe (ordering). Plus stray signals, fault-free controls, seeded random faulty programs. Non-trivial = distinct program whose planted fault was reached and decided.",
 		Assumptions: []string{"the faulting expression sits on one source line; siblings of the faulting operand are pure wherever the detection order is not fixed by the properties"},
 		Run:         c06Run,
 		Judge:       c06Judge,
